@@ -617,6 +617,12 @@ class IH5Group(IH5InnerNode):
             if isinstance(prev_val, (IH5Group, IH5Dataset)):
                 raise ValueError("Path exists, in order to replace - delete first!")
 
+        # create the dataset anonymously first (as h5py does): if the value cannot be
+        # stored, this fails before anything in the record has been touched
+        new_ds = self._files[-1].create_dataset(
+            None, shape=shape, dtype=dtype, data=data, **kwargs
+        )
+
         if path in self._files[-1] and _node_is_del_mark(
             self._get_child_raw(path, self._last_idx)
         ):
@@ -628,9 +634,7 @@ class IH5Group(IH5InnerNode):
             assert path in self._files[-1]
             del self._files[-1][path]
 
-        self._files[-1].create_dataset(  # actually create it, finally
-            path, shape=shape, dtype=dtype, data=data, **kwargs
-        )
+        self._files[-1][path] = new_ds  # actually link it, finally
         return IH5Dataset(self._record, path, self._last_idx)
 
     def require_group(self, name: str) -> IH5Group:
